@@ -163,6 +163,16 @@ HUNKS = {
          "func maps_rand() uint64 {\n\tif simrandOn != 0 && simInBubble() {\n\t\treturn simrand()\n\t}\n\treturn rand()\n}"),
         ("append", RAND_APPEND),
     ],
+    "runtime/synctest.go": [
+        # timers never fire early and, as on any real machine, a little late:
+        # when the bubble's clock jumps to the next timer it lands 1 microsecond
+        # past it. Without this, code that sleeps for exactly the remaining part
+        # of an interval and then tests "elapsed > interval" (client pinger)
+        # spins forever at the boundary instant, because virtual time is exact.
+        ("replace",
+         "\t\tbubble.now = next\n",
+         "\t\tbubble.now = next\n\t\tif simrandOn != 0 {\n\t\t\tbubble.now += 1000\n\t\t}\n"),
+    ],
     "runtime/select.go": [
         ("replace",
          "j := cheaprandn(uint32(norder + 1))",
